@@ -15,6 +15,7 @@ Model: `Molli.Model.Ukv` (the repaired `map_blocks`: size-bounded scan, torn tai
 writable stream).  "Crash" = any prefix of the program-order byte stream survives (A-io).
 -/
 import Molli.Lemmas.Ukv
+import Molli.Lemmas.UkvWorld
 namespace Molli.Props.C03
 open Molli.Util Molli.Model.Ukv Molli.Lemmas.Ukv
 
@@ -172,6 +173,97 @@ theorem crash_get (h1 h2 b0 : Bytes) (committed ps : List KV)
   have : image h1 h2 b0 committed ps n = encHeader h1 h2 b0 ++ blocks (committed ++ completePrefix ps n) ++ t := by
     simp [image, ht, blocks_append, List.append_assoc]
   rw [this]; exact h3
+
+
+/-- `map_blocks` of a handle that already mapped the complete records of a crash image (e.g. in an earlier
+read-only session on the same handle object), now on a writable stream: whichever branch is taken, the
+handle ends synchronised with the well-formed file of complete records and the torn tail is gone. -/
+theorem mapBlocks_image_again (h : Handle) (h1 h2 b0 : Bytes) (committed ps : List KV) (n : Nat)
+    (hc : ∀ r ∈ committed, r.ok) (hp : ∀ r ∈ ps, r.ok) (hk : ((committed ++ ps).map (·.key)).Nodup)
+    (hh2 : h.h2 = h2) (hb0 : h.b0 = b0) (hm : h.mode ≠ .r)
+    (htoc : h.toc = tocOf (bofOf h2 b0) (committed ++ completePrefix ps n))
+    (heof : h.eof = some (bofOf h2 b0 + (blocks (committed ++ completePrefix ps n)).length)) :
+    ∃ l, mapBlocks h (image h1 h2 b0 committed ps n) =
+      ({ h with toc := tocOf (bofOf h2 b0) (committed ++ completePrefix ps n), last := l,
+                eof := some (bofOf h2 b0 + (blocks (committed ++ completePrefix ps n)).length) },
+       wfFile h1 h2 b0 (committed ++ completePrefix ps n)) := by
+  have hbof : h.bof = bofOf h2 b0 := by simp [Handle.bof, hh2, hb0]
+  have htake := image_take h1 h2 b0 committed ps n
+  have hnd : ((committed ++ completePrefix ps n).map (·.key)).Nodup := by
+    have hpre : (committed ++ completePrefix ps n) <+: committed ++ ps :=
+      (List.prefix_append_right_inj committed).mpr (completePrefix_prefix_of_session ps n)
+    exact (hpre.sublist.map _).nodup hk
+  unfold mapBlocks
+  by_cases hcond : h.eof = some (image h1 h2 b0 committed ps n).length ∧ h.eof = h.lastEnd
+  · rw [if_pos hcond]
+    have hlen : (image h1 h2 b0 committed ps n).length =
+        bofOf h2 b0 + (blocks (committed ++ completePrefix ps n)).length := by
+      have := hcond.1; rw [heof] at this; exact (Option.some.inj this).symm
+    have himg : image h1 h2 b0 committed ps n = wfFile h1 h2 b0 (committed ++ completePrefix ps n) := by
+      rw [← htake]; exact (List.take_of_length_le (by omega)).symm
+    refine ⟨h.last, ?_⟩
+    rw [himg]
+    clear hcond hbof hh2 hb0 hm
+    cases h
+    simp only at htoc heof
+    subst htoc; subst heof
+    rfl
+  · rw [if_neg hcond]
+    simp only [hbof, scanFile_image h1 h2 b0 committed ps n hc hp]
+    have hmerge : tocMerge h.toc (tocOf (bofOf h2 b0) (committed ++ completePrefix ps n)) =
+        tocOf (bofOf h2 b0) (committed ++ completePrefix ps n) := by
+      rw [htoc]
+      have := tocMerge_prefix (bofOf h2 b0) (committed ++ completePrefix ps n) (committed ++ completePrefix ps n).length hnd
+      rwa [List.take_of_length_le (Nat.le_refl _)] at this
+    refine ⟨lastKey (tocOf (bofOf h2 b0) (committed ++ completePrefix ps n)), ?_⟩
+    rw [hmerge]
+    by_cases hlt : bofOf h2 b0 + (blocks (committed ++ completePrefix ps n)).length < (image h1 h2 b0 committed ps n).length
+    · simp [hlt, hm, htake]
+    · have himg : image h1 h2 b0 committed ps n = wfFile h1 h2 b0 (committed ++ completePrefix ps n) := by
+        rw [← htake]; exact (List.take_of_length_le (by omega)).symm
+      rw [himg] at hlt
+      simp [himg]
+      intro h'; exact absurd h' hlt
+
+/-- the closed read-only handle of the first session with mode `a` assigned and the header re-read -/
+def reopening (h1 h2 b0 : Bytes) (recs : List KV) : Handle :=
+  { mode := .a, closed := true, h1 := pad16 h1, h2 := h2, b0 := b0,
+    toc := tocOf (bofOf h2 b0) recs, last := lastKey (tocOf (bofOf h2 b0) recs),
+    eof := some (bofOf h2 b0 + (blocks recs).length) }
+
+def reopened (h1 h2 b0 : Bytes) (recs : List KV) (l : Option Bytes) : Handle :=
+  { mode := .a, closed := false, h1 := pad16 h1, h2 := h2, b0 := b0,
+    toc := tocOf (bofOf h2 b0) recs, last := l, eof := some (bofOf h2 b0 + (blocks recs).length) }
+
+/-- One long-lived handle: a read-only session on the crash image, then the same handle object is reopened
+for appending.  The cached end-of-file mark of the first session never makes the second one skip the
+torn tail: the file is cut back to the complete records and the handle is synchronised with it, so
+further puts behave as in `crash_then_append`. -/
+theorem crash_read_then_append (x1 x2 x3 h1 h2 b0 : Bytes) (hh : HdrOk h2 b0) (committed ps : List KV)
+    (hc : ∀ r ∈ committed, r.ok) (hp : ∀ r ∈ ps, r.ok) (hk : ((committed ++ ps).map (·.key)).Nodup) (n : Nat) :
+    ∃ h', runW { file := some (image h1 h2 b0 committed ps n), hs := fun _ => none }
+              [.new 0 .r x1 x2 x3, .close 0, .reopen 0 (some .a)] =
+        setH { file := some (wfFile h1 h2 b0 (committed ++ completePrefix ps n)), hs := fun _ => none } 0 (some h') ∧
+      Synced h' h2 b0 (committed ++ completePrefix ps n) := by
+  have hopen := crash_reopen .r (Or.inl rfl) x1 x2 x3 h1 h2 b0 hh committed ps hc hp hk n
+  have hrd : readHeader (image h1 h2 b0 committed ps n) = some (pad16 h1, h2, b0) := by
+    unfold image; rw [List.append_assoc]; exact readHeader_encHeader h1 h2 b0 hh.1 hh.2 _
+  obtain ⟨l, hmb⟩ := mapBlocks_image_again (reopening h1 h2 b0 (committed ++ completePrefix ps n))
+    h1 h2 b0 committed ps n hc hp hk rfl rfl (by simp [reopening]) rfl rfl
+  refine ⟨reopened h1 h2 b0 (committed ++ completePrefix ps n) l, ?_, ⟨rfl, by simp [reopened], rfl, rfl⟩⟩
+  · simp only [runW, List.foldl_cons, List.foldl_nil]
+    have s1 : step { file := some (image h1 h2 b0 committed ps n), hs := fun _ => none } (.new 0 .r x1 x2 x3) =
+        (setH { file := some (image h1 h2 b0 committed ps n), hs := fun _ => none } 0
+          (some (recovered .r h1 h2 b0 (committed ++ completePrefix ps n))), .ok) := by
+      simp only [step, hopen]; simp
+    rw [s1]
+    simp only [step, getH_setH_same, setH_setH, setH_file, recovered, openHandle, hrd]
+    simp only [reopening] at hmb
+    simp [hmb, reopened]
+    apply World.ext'
+    · simp [setH]
+    · intro j; by_cases hj : j = 0 <;> simp [setH, hj]
+
 
 /-! ### non-vacuity: a concrete crash image meets the hypotheses and behaves as stated -/
 
